@@ -2936,6 +2936,58 @@ impl ModuleGraph {
   }
 }
 
+/// Verification hooks (only compiled with `--cfg denoland_deno_graph_verif`).
+#[cfg(denoland_deno_graph_verif)]
+impl ModuleGraph {
+  /// Every module slot with its key; `None` is a pending slot and the
+  /// boolean says whether it is a pending asset load.
+  pub fn verif_slots(
+    &self,
+  ) -> Vec<(
+    &ModuleSpecifier,
+    Option<Result<&Module, &ModuleError>>,
+    bool,
+  )> {
+    self
+      .module_slots
+      .iter()
+      .map(|(k, slot)| match slot {
+        ModuleSlot::Module(m) => (k, Some(Ok(m)), false),
+        ModuleSlot::Err(e) => (k, Some(Err(e)), false),
+        ModuleSlot::Pending { is_asset } => (k, None, *is_asset),
+      })
+      .collect()
+  }
+
+  /// Copies the slot stored under `from` to the key `to` (used to build
+  /// synthetic slot/redirect layouts on top of a real graph).
+  pub fn verif_copy_slot(
+    &mut self,
+    from: &ModuleSpecifier,
+    to: &ModuleSpecifier,
+  ) -> bool {
+    match self.module_slots.get(from).cloned() {
+      Some(slot) => {
+        self.module_slots.insert(to.clone(), slot);
+        true
+      }
+      None => false,
+    }
+  }
+
+  /// Removes the slot stored under `key`.
+  pub fn verif_remove_slot(&mut self, key: &ModuleSpecifier) -> bool {
+    self.module_slots.remove(key).is_some()
+  }
+
+  /// Inserts a pending slot under `key`.
+  pub fn verif_insert_pending(&mut self, key: &ModuleSpecifier, is_asset: bool) {
+    self
+      .module_slots
+      .insert(key.clone(), ModuleSlot::Pending { is_asset });
+  }
+}
+
 /// Resolve a string specifier from a referring module, using the resolver if
 /// present, returning the resolution result.
 fn resolve(
